@@ -210,7 +210,7 @@ def run_ext(ctx):
     ce_futs = [(pool.submit(ce, cfg), kind) for cfg, kind in CE]
     # 2. schedules generated by TLC
     worlds = []
-    n_each = {"arch": 2, "gc": 2, "trusted": 3} if q else {"arch": 30, "gc": 16, "trusted": 30}
+    n_each = {"arch": 2, "gc": 2, "trusted": 3} if q else {"arch": 50, "gc": 24, "trusted": 40}
     for i, kind in enumerate(("arch", "gc", "trusted")):
         hs = ctx.tlc_sim("headerhashes", "HeaderHashesSim.tla", "Sim_%s.cfg" % kind, num=30 if q else 600, depth=70,
                          timeout=300, seed=ctx.seed * 10 + i)
@@ -258,7 +258,7 @@ def run_ext(ctx):
     # 3. seeded random and hand-made worlds
     hw = hand_worlds()
     worlds += hw[:2] + hw[3:] if q else hw
-    for i in range(2 if q else 48):
+    for i in range(2 if q else 96):
         kind = ("arch", "gc", "trusted", "arch")[i % 4] if not q else ("arch", "trusted")[i % 2]
         worlds.append(random_world(rnd, kind, 14 if q else 22, 2300 if q else 6100))
     if not q:
